@@ -220,4 +220,71 @@ def stepSpec (s : St) : Ev → St
       | .err c => push s0 r.notify id c
       | .panic => push { s0 with reports := s0.reports ++ [.handlerPanic id] } r.notify id specCodes.internalError
 
+/-! ### configuration and several connections of one server -/
+
+/-- How the per-connection cap is configured and turned into a semaphore. -/
+structure CapFacts where
+  /-- `DEFAULT_OFFREADER_LIMIT` -/
+  defaultLimit : Nat
+  /-- `WebSocketServer::new` stores `offreader_limit: Some(DEFAULT_OFFREADER_LIMIT)` -/
+  newUsesDefault : Bool
+  /-- `with_offreader_limit(limit)` stores `(limit > 0).then_some(limit)` -/
+  zeroMeansUnlimited : Bool
+  /-- `into_shared` copies `self.offreader_limit` and `handle_connection_with_config` builds
+  `config.offreader_limit.map(|n| Arc::new(Semaphore::new(n)))` — one semaphore per connection, as many
+  permits as the configured limit, none when unlimited -/
+  semaphoreIsLimitPerConnection : Bool
+  deriving DecidableEq, Repr
+
+/-- How the embedder configured the server. -/
+inductive CapSetting where
+  | default            -- `WebSocketServer::new(router)`
+  | set (n : Nat)      -- `.with_offreader_limit(n)`
+  deriving DecidableEq, Repr
+
+/-- `WebSocketServer.offreader_limit` after construction. -/
+def configuredLimit (f : CapFacts) : CapSetting → Option Nat
+  | .default => if f.newUsesDefault then some f.defaultLimit else none
+  | .set n => if n > 0 || !f.zeroMeansUnlimited then some n else none
+
+/-- Permits of the semaphore a freshly accepted connection gets (`none` = no semaphore). If the source
+no longer sizes a per-connection semaphore by the configured limit nothing is promised: unbounded. -/
+def connectionCap (f : CapFacts) (c : CapSetting) : Option Nat :=
+  if f.semaphoreIsLimitPerConnection then configuredLimit f c else none
+
+/-- One accepted connection; `closed` = its reader has stopped (peer gone, cancelled, drained): no frame
+is read any more and what a handler that is still running answers is discarded, but the handler keeps
+its permit until it ends. -/
+structure Conn where
+  st : St
+  closed : Bool
+  deriving DecidableEq, Repr
+
+inductive SEv where
+  | connect
+  | ev (i : Nat) (e : Ev)
+  | disconnect (i : Nat)
+  deriving DecidableEq, Repr
+
+def connStep (f : OffFacts) (c : Conn) (e : Ev) : Conn :=
+  if c.closed then
+    match e with
+    | .arrive _ => c
+    | .exit _ _ => { c with st := { (step f c.st e) with outbound := c.st.outbound } }
+  else { c with st := step f c.st e }
+
+def modifyNth {α} (l : List α) (i : Nat) (g : α → α) : List α :=
+  match l, i with
+  | [], _ => []
+  | a :: rest, 0 => g a :: rest
+  | a :: rest, i + 1 => a :: modifyNth rest i g
+
+def sstep (f : OffFacts) (cf : CapFacts) (setting : CapSetting) (conns : List Conn) : SEv → List Conn
+  | .connect => conns ++ [⟨St.init (connectionCap cf setting), false⟩]
+  | .ev i e => modifyNth conns i (fun c => connStep f c e)
+  | .disconnect i => modifyNth conns i (fun c => { c with closed := true })
+
+def srun (f : OffFacts) (cf : CapFacts) (setting : CapSetting) (evs : List SEv) : List Conn :=
+  evs.foldl (sstep f cf setting) []
+
 end Repe
